@@ -8,3 +8,8 @@ package wal
 // hand the writer a request-body slice that is recycled after the call returns).
 func (w *Writer) VerifLock()   { w.mu.Lock() }
 func (w *Writer) VerifUnlock() { w.mu.Unlock() }
+
+// VerifBreakFile closes the current WAL file handle (call with VerifLock held): the next entry's write
+// fails exactly like a write on a bad handle, which drives writeEntry's failure path (rotate, then
+// re-write the entry on the new file) deterministically.
+func (w *Writer) VerifBreakFile() { _ = w.currentFile.Close() }
